@@ -108,7 +108,10 @@ when `b` has at most 53 bits, otherwise short by less than half a unit in the la
 theorem raw_close (b s V : Nat) (hb : 0 < b) (h1 : b * 2 ^ s ≤ V)
     (hsmall : Nat.log2 b ≤ 52 → V = b * 2 ^ s)
     (hbig : 52 < Nat.log2 b → V < b * 2 ^ s + 2 ^ (Nat.log2 b - 53) * 2 ^ s) :
-    specRaw V ≤ codeRaw b s + 1 ∧ codeRaw b s ≤ specRaw V + 1 ∧ floorRaw V ≤ codeRaw b s := by
+    specRaw V ≤ codeRaw b s + 1 ∧ codeRaw b s ≤ specRaw V + 1 ∧ floorRaw V ≤ codeRaw b s ∧
+    ((V % (2 * (2 ^ (Nat.log2 b - 53) * 2 ^ s)) + (V - b * 2 ^ s) < 2 ^ (Nat.log2 b - 53) * 2 ^ s ∨
+      2 ^ (Nat.log2 b - 53) * 2 ^ s + (V - b * 2 ^ s) < V % (2 * (2 ^ (Nat.log2 b - 53) * 2 ^ s))) →
+      specRaw V = codeRaw b s) := by
   have hb0 : b ≠ 0 := by omega
   have hP : 0 < 2 ^ s := Nat.pow_pos (by decide)
   obtain ⟨hlo, hhi⟩ := log2_bounds b hb0
@@ -133,12 +136,12 @@ theorem raw_close (b s V : Nat) (hb : 0 < b) (h1 : b * 2 ^ s ≤ V)
       split
       · exact Nat.le_refl _
       · exact Nat.add_le_add_left (rne_ge _ _ (Nat.pow_pos (by decide))) _
-    omega
+    exact ⟨by omega, by omega, by omega, fun _ => heq⟩
   · have hbit' : 52 < Nat.log2 b := by omega
     have hV2 := hbig hbit'
     obtain ⟨j, hj⟩ : ∃ j, Nat.log2 b = 53 + j := ⟨Nat.log2 b - 53, by omega⟩
     have hj' : Nat.log2 b - 53 = j := by omega
-    rw [hj'] at hV2
+    rw [hj'] at hV2 ⊢
     -- names: J = 2^j, P = 2^s, h = J*P (half a unit), B = b*P
     have hJ : 0 < 2 ^ j := Nat.pow_pos (by decide)
     have hh : 0 < 2 ^ j * 2 ^ s := Nat.mul_pos hJ hP
@@ -177,7 +180,9 @@ theorem raw_close (b s V : Nat) (hb : 0 < b) (h1 : b * 2 ^ s ≤ V)
         unfold floorRaw
         rw [hL]; simp only [show ¬ (53 + j + s ≤ 52) by omega, if_false]
         rw [show 53 + j + s - 52 = 1 + j + s by omega, hpow 1, Nat.pow_one]
-      rw [hspec, hcode, hfloor]; omega
+      rw [hspec, hcode, hfloor]
+      refine ⟨by omega, by omega, by omega, fun hm => ?_⟩
+      rw [halfUp_eq_rne_of_margin B V h hh h1 hV2 hm]
     · -- the exact value is already in the next binade: both give its first pattern
       have hVb' : 2 ^ 54 * h ≤ V := by omega
       have hL : Nat.log2 V = 54 + j + s := by
@@ -222,6 +227,6 @@ theorem raw_close (b s V : Nat) (hb : 0 < b) (h1 : b * 2 ^ s ≤ V)
         rw [e2]
       rw [hspec, hcode, hhu, hfloor]
       have : (54 + j + s + 1022) * 2 ^ 52 = (53 + j + s + 1022) * 2 ^ 52 + 2 ^ 52 := by ring
-      omega
+      exact ⟨by omega, by omega, by omega, fun _ => by rw [this]; ring⟩
 
 end Qentem.Round
